@@ -345,6 +345,26 @@ def impl_top_values(schema):
         return ["raises", type(exc).__name__]
 
 
+def impl_top_values_20(schema):
+    """extract_top_level on a Swagger 2.0 operation whose body parameter carries the fragment as its schema: the example fields
+    are read in sorted order (example, then x-example) for every expanded schema, then x-examples."""
+    import schemathesis
+    from schemathesis.specs.openapi.examples import extract_top_level
+
+    raw = {
+        "swagger": "2.0",
+        "info": {"title": "t", "version": "1"},
+        "paths": {"/f": {"post": {"consumes": [J], "parameters": [{"name": "b", "in": "body", "required": True, "schema": copy.deepcopy(schema)}], "responses": {"200": {"description": "ok"}}}}},
+    }
+    try:
+        op = schemathesis.openapi.from_dict(raw)["/f"]["POST"]
+        return ["ok", [canon(e.value) for e in extract_top_level(op)]]
+    except RecursionError:
+        return ["raises", "RecursionError"]
+    except Exception as exc:  # noqa: BLE001
+        return ["raises", type(exc).__name__]
+
+
 def impl_inner_examples(examples, unresolved):
     from schemathesis.specs.openapi.examples import extract_inner_examples
 
@@ -384,11 +404,11 @@ def stage_fragments(chk, n):
     for s, (ef, esf) in schemas:
         exprs.append(
             f"(expand_subschemas {cjson(s)}, extract_from_schema 40 (JStr {cstr(GENERATED)}) {cstr(ef)} {cstr(esf)} {cjson(s)}, "
-            f"top_values [s_example] s_examples {cjson(s)})"
+            f"top_values [s_example] s_examples {cjson(s)}, top_values [s_example; s_x_example] s_x_examples {cjson(s)})"
         )
     model = coq_eval(exprs)
-    n_ex = n_exp = n_top = 0
-    for (s, (ef, esf)), (m_exp, m_ext, m_top) in zip(schemas, model):
+    n_ex = n_exp = n_top = n_top20 = 0
+    for (s, (ef, esf)), (m_exp, m_ext, m_top, m_top20) in zip(schemas, model):
         i_exp = impl_expand(s)
         i_ext = impl_extract_from_schema(s, ef, esf)
         mod_exp, mod_ext = model_values(m_exp), model_values(m_ext)
@@ -405,6 +425,12 @@ def stage_fragments(chk, n):
                 chk.disagree("extract_top_level (schema part) vs Model_C17.top_values", s, i_top, mod_top)
             else:
                 n_top += 1
+            if ef == "x-example" or any(k in s for k in ("example", "x-example")):
+                i_top20, mod_top20 = impl_top_values_20(s), model_values(m_top20)
+                if not same_outcome(i_top20, mod_top20):
+                    chk.disagree("extract_top_level (Swagger 2.0 body, example then x-example) vs Model_C17.top_values", s, i_top20, mod_top20)
+                else:
+                    n_top20 += 1
         if not same_outcome(i_ext, mod_ext):
             chk.disagree("extract_from_schema vs Model_C17.extract_from_schema", {"schema": s, "fields": [ef, esf]}, i_ext, mod_ext)
         else:
@@ -441,7 +467,78 @@ def stage_fragments(chk, n):
             chk.disagree("extract_inner_examples vs Model_C17.extract_inner_examples", {"examples": e, "unresolved": u}, impl, mod)
         else:
             n_in += 1
-    chk.stages["correspondence_fragments"] = {"schemas": len(schemas), "expand_agree": n_exp, "extract_from_schema_agree": n_ex, "top_values_agree": n_top, "inner_examples": len(inner), "inner_agree": n_in}
+    chk.stages["correspondence_fragments"] = {"schemas": len(schemas), "expand_agree": n_exp, "extract_from_schema_agree": n_ex, "top_values_agree": n_top, "top_values_20_agree": n_top20, "inner_examples": len(inner), "inner_agree": n_in}
+
+
+# ----------------------------------------------------------------------------------------
+# 2b. _find_parameter_examples_definition: lookup by (name, location)
+# ----------------------------------------------------------------------------------------
+def gen_lookup_case(rng):
+    names = ["id", "q"] if rng.random() < 0.8 else ["id"]
+    locs = ["query", "header", "cookie", "path"]
+    used, plist = set(), []
+    for _ in range(rng.choice([1, 2, 3, 4, 5])):
+        nm, loc = rng.choice(names), rng.choice(locs)
+        if (nm, loc) in used and rng.random() < 0.8:
+            continue
+        used.add((nm, loc))
+        p = {"name": nm, "in": loc, "schema": {"type": "string"}}
+        if loc == "path":
+            p["required"] = True
+        if rng.random() < 0.55:
+            p["examples"] = {f"{nm}-{loc}-{len(plist)}": rng.choice([{"value": f"{nm}-{loc}"}, {"$ref": "#/components/examples/E"}])}
+        plist.append(p)
+    refs, op_level, path_level = {}, [], []
+    for i, p in enumerate(plist):
+        entry = p
+        if rng.random() < 0.3:
+            refs[f"P{i}"] = p
+            entry = {"$ref": f"#/components/parameters/P{i}"}
+        (path_level if rng.random() < 0.3 else op_level).append(entry)
+    resolved = [refs[e["$ref"].rsplit("/", 1)[-1]] if "$ref" in e else e for e in op_level + path_level]
+    if rng.random() < 0.85 and plist:
+        t = rng.choice(plist)
+        name, loc = t["name"], (t["in"] if rng.random() < 0.8 else rng.choice(locs))
+    else:
+        name, loc = rng.choice(["id", "q", "zz"]), rng.choice(locs)
+    return {"op_level": op_level, "path_level": path_level, "refs": refs, "resolved": resolved, "name": name, "loc": loc}
+
+
+def impl_lookup(c):
+    import schemathesis
+    from schemathesis.specs.openapi.examples import _find_parameter_examples_definition
+
+    item = {"get": {"responses": {"200": {"description": "ok"}}}}
+    if c["op_level"]:
+        item["get"]["parameters"] = copy.deepcopy(c["op_level"])
+    if c["path_level"]:
+        item["parameters"] = copy.deepcopy(c["path_level"])
+    raw = {"openapi": "3.0.2", "info": {"title": "t", "version": "1"}, "paths": {"/l/{id}": item},
+           "components": {"parameters": copy.deepcopy(c["refs"]), "examples": {"E": {"value": "from-ref"}}}}
+    try:
+        op = schemathesis.openapi.from_dict(raw)["/l/{id}"]["GET"]
+        return ["ok", [canon(_find_parameter_examples_definition(op, c["name"], c["loc"], "examples"))]]
+    except Exception as exc:  # noqa: BLE001
+        return ["raises", type(exc).__name__]
+
+
+def stage_lookup(chk, n):
+    rng = chk.rng
+    cases = [json.loads(p.read_text()) for p in sorted((core.VERIF / "corpus" / "C17").glob("lookup_*.json"))]
+    cases += [gen_lookup_case(rng) for _ in range(n)]
+    exprs = [f"xres1 (find_param_examples {clist([cjson(p) for p in c['resolved']], 'json')} {cstr(c['name'])} {cstr(c['loc'])} s_examples)" for c in cases]
+    model = coq_eval(exprs)
+    agree = 0
+    for c, m in zip(cases, model):
+        impl, mod = impl_lookup(c), model_values(m)
+        same_named = sum(1 for p in c["resolved"] if p["name"] == c["name"])
+        chk.seen({"lookup": c}, same_named >= 2)
+        chk.count("lookup:" + ("raises" if impl[0] == "raises" else f"found, {min(same_named, 3)} same-named"))
+        if not same_outcome(impl, mod):
+            chk.disagree("_find_parameter_examples_definition vs Model_C17.find_param_examples", c, impl, mod)
+        else:
+            agree += 1
+    chk.stages["correspondence_examples_lookup"] = {"cases": len(cases), "agree": agree}
 
 
 # ----------------------------------------------------------------------------------------
@@ -926,7 +1023,7 @@ def place_body_examples(plan, rng, version, allow_findings):
 def gen_document(rng, version, n_ops, allow_findings):
     plan = Plan(rng)
     paths, ops, refs = {}, [], {}
-    schemas = {}
+    schemas, param_refs = {}, {}
     for i in range(n_ops):
         op = {"responses": {"200": {"description": "ok"}}}
         info = {"expect": [], "required": [], "region": None, "has_body_examples": False}
@@ -1000,9 +1097,44 @@ def gen_document(rng, version, n_ops, allow_findings):
                 op["consumes"] = [J]
             info["body_required"] = body_required
             info["body_fill_schema"] = {"type": "object", "properties": {"req": {"type": "integer", "minimum": 7, "maximum": 9}}, "required": ["req"]}
+        # same-named parameters in other locations, listed before or after, with and without their own examples
+        plain = [p for p in params if p.get("in") != "body"]
+        if plain and rng.random() < 0.35:
+            for _ in range(rng.choice([1, 1, 2])):
+                t = rng.choice(plain)
+                free = [loc for loc in (["query", "header", "cookie"] if version == 3 else ["query", "header"]) if not any(p["name"] == t["name"] and p["in"] == loc for p in params)]
+                if not free:
+                    continue
+                sib = {"name": t["name"], "in": rng.choice(free)}
+                if has_examples and rng.random() < 0.5:
+                    plan.start_slot("scalar", 0.1)
+                    exp, r = place_param_examples(plan, rng, sib, version, False)
+                    plan.end_slot()
+                    refs.update(r)
+                    for v, region in exp:
+                        info["expect"].append({"loc": sib["in"], "name": sib["name"], "value": v, "region": region})
+                else:
+                    sib.update({"schema": {"type": "string", "enum": ["k1", "k2"]}} if version == 3 else {"type": "string", "enum": ["k1", "k2"]})
+                idx = params.index(t)
+                params.insert(idx if rng.random() < 0.6 else idx + 1, sib)
+                info["same_named"] = True
+        # $ref-ed parameters and path-level parameters (the examples lookup walks both, resolving references)
+        path_level = []
+        if params and rng.random() < 0.3:
+            for k, p in enumerate(list(params)):
+                if rng.random() < 0.5:
+                    rname = f"P{i}_{k}"
+                    param_refs[rname] = p
+                    params[k] = {"$ref": ("#/components/parameters/" if version == 3 else "#/parameters/") + rname}
+        if params and rng.random() < 0.3:
+            keep = []
+            for p in params:
+                target = p if "$ref" not in p else param_refs[p["$ref"].rsplit("/", 1)[-1]]
+                (path_level if target.get("in") != "body" and rng.random() < 0.5 else keep).append(p)
+            params = keep
         # poison siblings: the whole operation is expected to report an error (or, for the silent classes, is a finding)
         if allow_findings and info["expect"] and rng.random() < 0.12:
-            poison = rng.choice(["unsatisfiable", "recursive_ref", "same_name", "bad_header"])
+            poison = rng.choice(["unsatisfiable", "recursive_ref", "bad_header"])
             if poison == "unsatisfiable":
                 sch = {"type": "integer", "minimum": 5, "maximum": 4}
                 params.append({"name": "zz", "in": "query", "required": True, **({"schema": sch} if version == 3 else sch)})
@@ -1012,11 +1144,6 @@ def gen_document(rng, version, n_ops, allow_findings):
                 op["requestBody"] = {"required": True, "content": {J: {"schema": {"$ref": "#/components/schemas/Node"}}}}
                 info["poison"] = poison
                 info["region"] = "silent_exn"
-            elif poison == "same_name" and version == 3 and any(e["loc"] == "query" and "examples" in next(p for p in params if p["name"] == e["name"] and p["in"] == "query") for e in info["expect"] if e["loc"] == "query"):
-                target = next(e["name"] for e in info["expect"] if e["loc"] == "query" and "examples" in next(p for p in params if p["name"] == e["name"] and p["in"] == "query"))
-                params.insert(0, {"name": target, "in": "header", "schema": {"type": "string"}})
-                info["poison"] = poison
-                info["region"] = "same_name_examples_lookup"
             elif poison == "bad_header":
                 params.append({"name": "X-Bad", "in": "header", **({"schema": {"type": "string"}} if version == 3 else {"type": "string"}), ("example" if version == 3 else "x-example"): "cafЖ"})
                 info["poison"] = poison
@@ -1024,6 +1151,8 @@ def gen_document(rng, version, n_ops, allow_findings):
             op["parameters"] = params
         info.update({"path": path, "method": method.upper(), "prefix": f"/op{i}"})
         paths[path] = {method: op}
+        if path_level:
+            paths[path]["parameters"] = path_level
         ops.append(info)
     if version == 3:
         raw = {"openapi": "3.0.2", "info": {"title": "t", "version": "1"}, "paths": paths}
@@ -1032,10 +1161,14 @@ def gen_document(rng, version, n_ops, allow_findings):
             comp["examples"] = refs
         if schemas:
             comp["schemas"] = schemas
+        if param_refs:
+            comp["parameters"] = param_refs
         if comp:
             raw["components"] = comp
     else:
         raw = {"swagger": "2.0", "info": {"title": "t", "version": "1"}, "paths": paths}
+        if param_refs:
+            raw["parameters"] = param_refs
     for o in ops:
         o["twin_pairs_in_document"] = plan.twins_planted
     return raw, ops
@@ -1200,9 +1333,22 @@ def uncanon(c):
     return c
 
 
+def resolved_params(raw, op):
+    """Raw parameter objects of the operation followed by those of the path item, references resolved (as the lookup walks them)."""
+    item = raw["paths"][op["path"]]
+    out = []
+    for p in list(item[op["method"].lower()].get("parameters", [])) + list(item.get("parameters", [])):
+        if "$ref" in p:
+            store = raw.get("components", {}).get("parameters", {}) if "openapi" in raw else raw.get("parameters", {})
+            p = store[p["$ref"].rsplit("/", 1)[-1]]
+        out.append(p)
+    return out
+
+
 def schema_of(raw, op, e):
     """The schema a planted example lives in (None when it is not planted inside a schema we can hand to the model)."""
-    node = raw["paths"][op["path"]][op["method"].lower()]
+    node = dict(raw["paths"][op["path"]][op["method"].lower()])
+    node["parameters"] = resolved_params(raw, op)
     if e["loc"] == "body":
         if e.get("media_type") != J:
             return None
@@ -1344,6 +1490,7 @@ def run(chk: core.Check):
     mult = 1 if quick else 8
     stage_combinations(chk, 500 * mult)
     stage_fragments(chk, 400 * mult)
+    stage_lookup(chk, 80 * mult)
     stage_merge(chk, 120 * mult)
     stage_add_examples(chk, 40 * mult)
     n_docs = (32 if quick else 400) * (10 if chk.broken else 1)
